@@ -121,9 +121,8 @@ def ifCasMismatch : Option Nat → Nat → Bool
   | some c, prev => c != prev
   | none, _ => false
 
-def wwxFn (k : String) (val : ValArg) (edits : List XEdit) (ifCas : Option Nat) (exp : Option Nat) (o : XOpts)
-    (macros : List (String × MacroKind)) : TxnFn := fun newCas now nid docs =>
-  let old := docs.get? k
+def wwxRow (k : String) (val : ValArg) (edits : List XEdit) (ifCas : Option Nat) (exp : Option Nat) (o : XOpts)
+    (macros : List (String × MacroKind)) : RowFn := fun newCas now old =>
   -- first read the existing doc, if any
   let pre : Out ⊕ (Option String × Bool × Nat × Nat × Xattrs × Nat) :=   -- value, isJSON, prevCas, exp, xattrs, rev
     match old with
@@ -154,11 +153,12 @@ def wwxFn (k : String) (val : ValArg) (edits : List XEdit) (ifCas : Option Nat) 
       | .inr xattrs =>
         let expStored := match exp with | some e => absExp now e | none => exp0
         let tomb := value.isNone
-        let r' : Row := { rowid := (match old with | some r => r.rowid | none => nid), value := value, cas := newCas,
-                          exp := expStored, isJSON := isJSON, xattrs := xattrs, tomb := tomb, rev := rev }
-        .inr (docs.put k r', (match old with | some _ => nid | none => nid + 1),
+        .inr (some { rowid := 0, value := value, cas := newCas, exp := expStored, isJSON := isJSON, xattrs := xattrs, tomb := tomb, rev := rev },
           some { key := k, value := value, isDeletion := tomb, isJSON := isJSON, xattrs := xattrs, cas := newCas, exp := expStored, rev := rev },
           { cas := newCas })
+
+def wwxFn (k : String) (val : ValArg) (edits : List XEdit) (ifCas : Option Nat) (exp : Option Nat) (o : XOpts)
+    (macros : List (String × MacroKind)) : TxnFn := liftRow k (wwxRow k val edits ifCas exp o macros)
 
 /-- Pre-transaction validation of `writeWithXattrs`: keys, then parseability of the values to set. -/
 def validateEdits (edits : List XEdit) : Option Err :=
@@ -243,50 +243,60 @@ def removeXattrs (xs : Xattrs) (names : List String) : Err ⊕ Xattrs :=
   else if names.any (fun n => ¬ validXattrKey n) then .inl .badXattrKey
   else .inr (names.foldl Xattrs.erase xs)
 
-def delxFn (k : String) (names : List String) : TxnFn := fun newCas _ nid docs =>
-  match docs.get? k with
+def delxRow (k : String) (names : List String) : RowFn := fun newCas _ old =>
+  match old with
   | none => .inl { err := .missing }
   | some r =>
     match removeXattrs r.xattrs names with
     | .inl e => .inl { err := e }
     | .inr xattrs =>
-      let r' : Row := { r with value := none, isJSON := false, exp := 0, tomb := true, xattrs := xattrs, cas := newCas, rev := r.rev + 1 }
-      .inr (docs.put k r', nid,
+      .inr (some { r with value := none, isJSON := false, exp := 0, tomb := true, xattrs := xattrs, cas := newCas, rev := r.rev + 1 },
         some { key := k, value := none, isDeletion := true, isJSON := false, xattrs := xattrs, cas := newCas, exp := 0, rev := r.rev + 1 },
         {})
 
+def delxFn (k : String) (names : List String) : TxnFn := liftRow k (delxRow k names)
+
 def opDeleteWithXattrs (s : State) (c k : String) (names : List String) : State × Out := withNewCas s c (delxFn k names)
 
-def dspFn (k : String) (names : List String) : TxnFn := fun newCas _ nid docs =>
-  match docs.get? k with
+def dspRow (k : String) (names : List String) : RowFn := fun newCas _ old =>
+  match old with
   | none => .inl { err := .missing }
   | some r =>
     match removeXattrs r.xattrs names with
     | .inl e => .inl { err := e }
     | .inr xattrs =>
-      let r' : Row := { r with xattrs := xattrs, cas := newCas, rev := r.rev + 1 }
-      .inr (docs.put k r', nid,
+      .inr (some { r with xattrs := xattrs, cas := newCas, rev := r.rev + 1 },
         some { key := k, value := r.value, isDeletion := r.value.isNone, isJSON := r.isJSON, xattrs := xattrs, cas := newCas, exp := r.exp, rev := r.rev + 1 },
         {})
+
+def dspFn (k : String) (names : List String) : TxnFn := liftRow k (dspRow k names)
 
 def opDeleteSubDocPaths (s : State) (c k : String) (names : List String) : State × Out := withNewCas s c (dspFn k names)
 
 /-! ### SetWithMeta / DeleteWithMeta: one transaction, caller-supplied CAS, no clock, no `lastCas` -/
+
+def wmetaRow (k : String) (oldCas newCas exp : Nat) (xattrs : Xattrs) (body : Option String) (isJSON isDeletion : Bool) : RowFn :=
+  fun _ _ old =>
+    let prevCas := match old with | some r => r.cas | none => 0
+    if oldCas ≠ prevCas then .inl { err := .casMismatch, actual := some prevCas }
+    else
+      let rev := (match old with | some r => r.rev | none => 0) + 1
+      .inr (some { rowid := 0, value := body, cas := newCas, exp := exp, isJSON := isJSON, xattrs := xattrs, tomb := isDeletion, rev := rev },
+        some { key := k, value := body, isDeletion := isDeletion, isJSON := isJSON, xattrs := xattrs, cas := newCas, exp := exp, rev := rev },
+        {})
 
 def opWriteWithMeta (s : State) (c k : String) (oldCas newCas exp : Nat) (xattrs : Xattrs) (body : Option String)
     (isJSON isDeletion : Bool) : State × Out :=
   match s.coll? c with
   | none => (s, { err := .closed })
   | some x =>
-    let old := x.docs.get? k
-    let prevCas := match old with | some r => r.cas | none => 0
-    if oldCas ≠ prevCas then (s, { err := .casMismatch, actual := some prevCas })
-    else
-      let rev := (match old with | some r => r.rev | none => 0) + 1
-      let r' : Row := { rowid := (match old with | some r => r.rowid | none => s.nextRowId), value := body, cas := newCas, exp := exp,
-                        isJSON := isJSON, xattrs := xattrs, tomb := isDeletion, rev := rev }
-      let s1 := ({ s with nextRowId := (match old with | some _ => s.nextRowId | none => s.nextRowId + 1) }).setColl c { x with docs := x.docs.put k r' }
-      (postEvent s1 c x.id { key := k, value := body, isDeletion := isDeletion, isJSON := isJSON, xattrs := xattrs, cas := newCas, exp := exp, rev := rev }, {})
+    match liftRow k (wmetaRow k oldCas newCas exp xattrs body isJSON isDeletion) newCas s.now s.nextRowId x.docs with
+    | .inl out => (s, out)
+    | .inr (docs', nid, ev, out) =>
+      let s1 := ({ s with nextRowId := nid }).setColl c { x with docs := docs' }
+      match ev with
+      | some e => (postEvent s1 c x.id e, out)
+      | none => (s1, out)
 
 /-! ### Reads -/
 
